@@ -160,6 +160,17 @@ fn create_ts_authinfo(auth_info: Vec<u8>) -> Vec<u8> {
     to_der(&ts_authinfo)
 }
 
+/// Verification hooks: the two private encoders of this module
+#[cfg(rdp_rs_verif)]
+pub fn verif_create_ts_credentials(domain: Vec<u8>, user: Vec<u8>, password: Vec<u8>) -> Vec<u8> {
+    create_ts_credentials(domain, user, password)
+}
+
+#[cfg(rdp_rs_verif)]
+pub fn verif_create_ts_authinfo(auth_info: Vec<u8>) -> Vec<u8> {
+    create_ts_authinfo(auth_info)
+}
+
 /// This the main function for CSSP protocol
 /// It will use the raw link layer and the selected authenticate protocol
 /// to perform the NLA authenticate
